@@ -43,6 +43,12 @@ PROPS = {
         batches=[
             fsm('submissions', 450, 30000, faults=False, events=12, mix=SUBMIT_MIX),
             fsm('submissions-faults', 250, 20000, faults=True, net=True, events=12, mix=SUBMIT_MIX),
+            # biased to a weaker priority waiting behind a backlog (one or two workers, long executions, quick compliance
+            # checks) and then being overtaken by a stronger one in the same cycle: every ordered pair of priorities
+            fsm('overtaking-behind-a-backlog', 300, 20000, faults=False, events=14, workers=[1, 1, 2],
+                mix=dict(run=4, rerun_executing=0, add_target=0, run_all=2, run_empty=0, update=0, submit=8, reset=0, bad_trigger=0),
+                priorities=['todo_empty', 'doing_empty', 'doing_empty', 'crew_idle', 'crew_idle', 'now'], proc_delays=[0.0, 0.1, 1.0],
+                git_fail=(1, 40), outcome=dict(success=8, failure=1, invalid=1)),
         ],
         wall=dict(quick=100, thorough=1500),
     ),
